@@ -32,7 +32,7 @@ def check(run):
     R = run
     R.rule('C04.shared', 'objects created once per class / per function definition (class-level attributes, parameter '
            'defaults) are only read: no buffer, validator, poll object, header list or option dict is shared between '
-           'connections', 2)
+           'connections', 1)
     from .common import shared_state
     shared_state(R, 'C04.shared')
     from .common import sized_truth
